@@ -63,7 +63,7 @@ class Recorder:
         self.calls, self.generated, self.auto_stationary = [], [], []
 
 
-def run_class(modname, clsname, params, n_samples=3, with_stationary=False, stationary_pos='last', setup=None):
+def run_class(modname, clsname, params, n_samples=3, with_stationary=False, stationary_pos='last', setup=None, residue=False):
     """returns (instance, recorder, samples)"""
     from PEPit.pep import PEP
     PEP()                      # reset the class-level registries the real constructors touch
@@ -85,7 +85,17 @@ def run_class(modname, clsname, params, n_samples=3, with_stationary=False, stat
     obj.list_of_stationary_points = [stat.triplet] if stat else []
     obj.list_of_class_constraints = []
     obj.list_of_class_psd = []
+    n_c = n_p = 0
+    if residue:
+        # what an earlier solve may have left behind: add_class_constraints must generate the same conditions regardless
+        from PEPit.psd_matrix import PSDMatrix
+        obj.list_of_class_constraints = [SConstraint(S.WORLD.expr('residue'), 'inequality')]
+        obj.list_of_class_psd = [PSDMatrix([[S.WORLD.expr('residue_lmi')]])]
+        obj.tables_of_constraints = {'residue': None}
+        n_c, n_p = 1, 1
     if setup:
         setup(obj, samples)
     obj.add_class_constraints()
+    obj.list_of_class_constraints = obj.list_of_class_constraints[n_c:]
+    obj.list_of_class_psd = obj.list_of_class_psd[n_p:]
     return obj, rec, samples
